@@ -458,21 +458,29 @@ impl Handler<SetBreakpointsRequest> for SetBreakpointsRequestHandler {
         }
 
         let source = args.source.clone();
-        let source_path = args.source.path.as_ref().unwrap().clone();
+        let source_path = match args.source.path.as_ref() {
+            Some(path) => path.clone(),
+            None => return Err(anyhow::anyhow!("Breakpoints need a source with a path").into()),
+        };
 
         let line_column_pcs = args
             .breakpoints
             .unwrap_or_default()
             .into_iter()
             .map(|bp| {
+                // (a client that counts from 1 has no line or column 0; take it to mean the first one)
                 let line = if conn.lines_start_at_1 {
-                    bp.line - 1
+                    bp.line.saturating_sub(1)
                 } else {
                     bp.line
                 };
-                let column = bp
-                    .column
-                    .map(|c| if conn.columns_start_at_1 { c - 1 } else { c });
+                let column = bp.column.map(|c| {
+                    if conn.columns_start_at_1 {
+                        c.saturating_sub(1)
+                    } else {
+                        c
+                    }
+                });
 
                 // A single location may result in multiple breakpoints
                 let pcs = match conn.codegen() {
